@@ -48,6 +48,7 @@ func checkC16(c *Check) {
 	c.attrIteration("C16.1 attribute-slices", "C16.3 duplicates-and-overruns")
 	c.bitmapAgreement("C16.3 bitmap-agreement")
 	c.decoderStateless("C16.3 decoder-stateless")
+	c.errorClassesOpaque("C16.3 overrun-does-not-abort")
 	c.checkBounds("C16.4", []string{"UpdateDecoder.Decode", "UpdateDecoder.decodePathAttrs", "attrsBitmap.set", "attrsBitmap.isSet"}, 20)
 }
 
@@ -521,7 +522,7 @@ func classifyJoined(p *Prog, st *State, e *Expr) []ErrClass {
 func (c *Check) bitmapAgreement(rule string) {
 	p := c.P
 	setFn, isSetFn := p.Fn("attrsBitmap.set"), p.Fn("attrsBitmap.isSet")
-	if setFn == nil || isSetFn == nil || len(setFn.Params) != 2 || len(isSetFn.Params) != 2 {
+	if setFn == nil || isSetFn == nil || !c.sig(rule, setFn, 2) || !c.sig(rule, isSetFn, 2) {
 		return
 	}
 	// word count and width from the receiver type
